@@ -14,9 +14,9 @@ what each report passes to its kernel.
 | `regRowSel`       | `Predicate<RegisterPosting>` of `RegisterAllSelector` / `RegisterByAccountSelector` (`regexs.is_match(&rep.post.acctn.atn.account)`) |
 | `equityRowSel`    | `Predicate<BalanceTreeNode>` of `BalanceNonZeroSelector` / `BalanceNonZeroByAccountSelector`     |
 | `equityAcc`       | the same selector in the shape `equityExport` takes it (`nonZeroSel_equityAcc`: they agree)    |
-| `balanceBySel`   | `BalanceReporter::write_txt_report` up to the `Balance` it prints: `get_acc_selector()?`, `Balance::from` |
-| `registerBySel`  | `RegisterReporter::write_txt_report`: `get_acc_selector()?`, `register_engine`, entries written |
-| `equityBySel`    | `EquityExporter::write_export`: `get_acc_selector()?`, then the export                          |
+| `balanceBySel`    | `BalanceReporter::write_txt_report` up to the `Balance` it prints: `get_acc_selector()?`, `Balance::from` |
+| `registerBySel`   | `RegisterReporter::write_txt_report`: `get_acc_selector()?`, `register_engine`, entries written |
+| `equityBySel`     | `EquityExporter::write_export`: `get_acc_selector()?`, then the export                          |
 
 The pattern list is the *effective* one (`effectiveSel own global`).
 -/
